@@ -71,13 +71,15 @@ fn run_pipeline(c: &mut dyn Choices, ctx: &Ctx) -> Outcome {
 }
 
 fn gen_cop(c: &mut dyn Choices) -> COp {
-  match c.pick(8) {
+  match c.pick(9) {
     0 | 1 => COp::Append,
     2 => COp::CloneHandle(c.pick(3)),
     3 => COp::Unsub(c.pick(3)),
     4 | 5 => COp::IsClosed(c.pick(3)),
     6 => COp::CloseChild(c.pick(3)),
-    _ => COp::Retain(c.pick(3)),
+    7 => COp::Retain(c.pick(3)),
+    // (new alternative at the high end of the pick: recorded tapes keep their meaning)
+    _ => COp::AppendReentrant,
   }
 }
 
@@ -94,11 +96,14 @@ fn run_composite(c: &mut dyn Choices, ctx: &Ctx) -> Outcome {
   });
   // model
   let unsub_step = ops.iter().position(|o| matches!(o, COp::Unsub(_)));
-  let append_after = unsub_step.map_or(false, |u| ops[u + 1..].iter().any(|o| matches!(o, COp::Append)));
+  let append_after = unsub_step.map_or(false, |u| ops[u + 1..].iter().any(|o| matches!(o, COp::Append | COp::AppendReentrant)));
   let sampled_around = unsub_step.map_or(false, |u| ops[..u].iter().any(|o| matches!(o, COp::IsClosed(_))) && ops[u + 1..].iter().any(|o| matches!(o, COp::IsClosed(_))));
   let mut labels: Vec<&'static str> = vec![if threads { "MultiSubscriptionThreads" } else { "MultiSubscription" }];
   if append_after {
     labels.push("append-after-unsubscribe");
+  }
+  if unsub_step.map_or(false, |u| ops[..u].iter().any(|o| matches!(o, COp::AppendReentrant))) {
+    labels.push("append-during-teardown");
   }
   let relax_monotone = ctx.known("composite:not-monotone");
   let verdict = match &res {
@@ -111,6 +116,9 @@ fn run_composite(c: &mut dyn Choices, ctx: &Ctx) -> Outcome {
       for o in &ops {
         if matches!(o, COp::Append) {
           nchild += 1;
+        }
+        if matches!(o, COp::AppendReentrant) {
+          nchild += 2; // the child and the subscription it will add during its own teardown
         }
         n_children_at_step.push(nchild);
       }
